@@ -82,7 +82,7 @@ class Ctx:
     def _prep(self, name, module_rel, cfg_rel, constants, extra_files=()):
         d = os.path.join(self.scratch, name)
         os.makedirs(d, exist_ok=True)
-        for f in glob.glob(os.path.join(SPEC, "*.tla")):
+        for f in glob.glob(os.path.join(SPEC, "*.tla")) + glob.glob(os.path.join(SPEC, os.path.dirname(module_rel), "*.tla")):
             shutil.copy(f, d)
         shutil.copy(os.path.join(SPEC, module_rel), d)
         cfg = open(os.path.join(SPEC, cfg_rel)).read()
